@@ -41,7 +41,7 @@ type openCase struct {
 	Clip    Paths `json:"clip"`
 }
 
-func openInput(id run.CaseID) openCase {
+func openInput0(id run.CaseID) openCase {
 	r := gen.ForCase(id.Family, id.Index, id.Stream)
 	var oc openCase
 	var R int64
@@ -95,6 +95,17 @@ func openInput(id run.CaseID) openCase {
 		snap = nil
 	}
 	oc.Open = gen.Polylines(r, 1+r.Intn(3), R+R/4, snap)
+	return oc
+}
+
+// openInput is openInput0, with 15 % of the cases shifted so that a vertex or an edge crossing lies exactly on the origin.
+func openInput(id run.CaseID) openCase {
+	oc := openInput0(id)
+	r := gen.ForCase(id.Family+"#anchor", id.Index, id.Stream)
+	if r.Chance(0.15) {
+		dx, dy := anchorShift(r, []Paths{oc.Clip, oc.Subject}, []Paths{oc.Open})
+		oc.Clip, oc.Subject, oc.Open = gen.Translate(oc.Clip, dx, dy), gen.Translate(oc.Subject, dx, dy), gen.Translate(oc.Open, dx, dy)
+	}
 	return oc
 }
 
